@@ -308,6 +308,12 @@ func genStreamSpec(prop string, seed uint64, o streamGenOpts) *spec.RunSpec {
 			}
 		}
 	}
+	switch prop {
+	case "C01", "C02", "C03", "C13", "C14", "C16":
+		// a third of the runs take their connections straight from the multiplexers, where
+		// the application's first write rides on the open-session request
+		s.Server.RawMux = simnet.NewRng(seed, "gen-rawmux-"+prop).Bool(0.35)
+	}
 	return s
 }
 
